@@ -104,6 +104,7 @@ func c14Prop(st *CaseStats) func(t *rapid.T) {
 					jobs[i] = job{ob, normFns[rapid.IntRange(0, len(normFns)-1).Draw(t, "concNorm")], rapid.SampledFrom(ChunkModes).Draw(t, "concMode")}
 				}
 				hist += fmt.Sprintf(" concurrent(%d)", k)
+				noteCurrentCase(desc + " history" + hist)
 				outs := make([][]byte, k)
 				errs := make([]error, k)
 				var wg sync.WaitGroup
